@@ -12,7 +12,7 @@ RULE = (
     "configurations incl. small max_count and num_reserved in {0,1,3,15}; heavy hitters width 1..4 depth 1..3 max_key_len in {2,4,16}; "
     "HyperLogLog p in {7,9,12} with any uint64 seed): three sketches of equal configuration are pre-loaded with a common random history, log "
     "types get an identical planted batch of 2048 PRNG draws, then sketch A receives one compound call (update(list), update(dict) with "
-    "multiplicities 1..10^4 (log: 1..300), add(key,v), add_ngram(key,n) with n in 1..len+2 (keys up to 40 bytes, occasionally 250..300 bytes), update_ngram(list,n)), sketch B the loop of "
+    "multiplicities 1..10^4 (log: 1..300), add(key,v), add_ngram(key,n) with n in 1..len+2 (keys up to 40 bytes, occasionally 250..300 bytes), update_ngram(list,n), update() fed an iterable that itself adds a key to the same sketch while being consumed, update() fed an iterable that raises after j keys (the caller catches it)), sketch B the loop of "
     "per-item calls (add(key) / add(key,value) / add_ngram per element) and sketch C the loop of single unit adds (one add per window / per unit of "
     "multiplicity). Oracle: full public state of A, B and C identical (tables, n_added_records, rand_ptr for log types), still identical after a "
     "common continuation of 6 further adds that keeps consuming each sketch's own draw batch; sketch[key]==query(key) for count-min. "
@@ -45,13 +45,17 @@ def cases(draw):
     vmax = 300 if log else 10**4
     val = st.one_of(st.sampled_from([1, 1, 2, 3, 16, 17, 255, 256, 257]), st.integers(1, 40), st.integers(1, vmax))
     pre = draw(st.lists(st.tuples(key, st.integers(1, 20)), min_size=0, max_size=6))
-    kind = draw(st.sampled_from(["update_list", "update_dict", "add", "add_ngram", "update_ngram"]))
+    kind = draw(st.sampled_from(["update_list", "update_list", "update_dict", "update_dict", "add", "add", "add_ngram", "add_ngram", "update_ngram", "update_ngram", "update_reentrant", "update_interrupted"]))
     op = {"op": kind}
     if kind == "update_list":
         op["keys"] = draw(st.lists(key, min_size=0, max_size=12))
         if op["keys"] and draw(st.integers(0, 5)) == 0 and not log:  # hundreds of entries in one call
             n = draw(st.sampled_from([255, 256, 257, 300, 1024]))
             op["keys"] = [op["keys"][t % len(op["keys"])] for t in range(n)]
+    elif kind in ("update_reentrant", "update_interrupted"):
+        op["keys"] = draw(st.lists(key, min_size=1, max_size=8))
+        op["at"] = draw(st.integers(0, len(op["keys"])))  # position of the nested add / of the exception
+        op["extra"] = draw(key)
     elif kind == "update_dict":
         op["items"] = [[k, draw(val)] for k in draw(st.lists(key, min_size=0, max_size=5, unique=True))]
         if log:
@@ -75,9 +79,22 @@ def cases(draw):
     return {"cfg": cfg, "pre": pre, "op": op, "cont": cont, "rs": draw(st.integers(0, 2**32 - 1))}
 
 
+class _Interrupted(Exception):
+    pass
+
+
 def per_item(op, kind):
     """expansion level B: one call per element"""
     k = op["op"]
+    if k == "update_reentrant":  # the iterable adds `extra` through add() right after handing out its at-th key
+        out = []
+        for t, x in enumerate(op["keys"]):
+            out.append(("add_default", x))
+            if t == op["at"]:
+                out.append(("add", op["extra"], 1))
+        return out
+    if k == "update_interrupted":  # the iterable raises after `at` keys; the caller catches the exception
+        return [("add_default", x) for x in op["keys"][: op["at"]]]
     if k == "update_list":
         return [("add_default", x) for x in op["keys"]]
     if k == "update_dict":
@@ -93,6 +110,8 @@ def singles(op, kind):
     """expansion level C: one unit add per element / unit of multiplicity / window"""
     k = op["op"]
     hll = kind == "hll"
+    if k in ("update_reentrant", "update_interrupted"):
+        return [("add", c[1], 1) for c in per_item(op, kind)]
     if k == "update_list":
         return [("add", x, 1) for x in op["keys"]]
     if k == "update_dict":
@@ -141,7 +160,28 @@ def run_case(case):
     op = case["op"]
     interfere(cfg)
     # A: the compound call
-    if op["op"] == "update_list":
+    if op["op"] == "update_reentrant":
+        def gen():
+            for t, x in enumerate(op["keys"]):
+                yield x
+                if t == op["at"]:
+                    A.add(op["extra"], 1)
+
+        sut(A.update, gen())
+    elif op["op"] == "update_interrupted":
+        def gen2():
+            for t, x in enumerate(op["keys"]):
+                if t == op["at"]:
+                    raise _Interrupted()
+                yield x
+
+        try:
+            A.update(gen2())
+        except _Interrupted:
+            pass
+        except Exception as e:  # noqa
+            raise Violation(f"update() turned the iterable's own exception into {type(e).__name__}: {e}", "sut-exception")
+    elif op["op"] == "update_list":
         sut(A.update, list(op["keys"]))
     elif op["op"] == "update_dict":
         sut(A.update, {k: v for k, v in op["items"]})
@@ -186,6 +226,8 @@ def nontrivial(case):
         return op["n"] < len(op["k"])
     if op["op"] == "update_ngram":
         return any(op["n"] < len(k) for k in op["keys"])
+    if op["op"] in ("update_reentrant", "update_interrupted"):
+        return len(op["keys"]) >= 2
     if op["op"] == "update_list":
         return len(set(op["keys"])) < len(op["keys"]) or len(set(op["keys"])) >= 2
     if op["op"] == "update_dict":
